@@ -27,7 +27,7 @@ RULE = (
     "(an item was already delivered or another resource was used before). One evaluation = one injected run."
 )
 ASSUMPTIONS = [
-    "StopIteration/StopAsyncIteration/GeneratorExit are not injected (PEP 479/525 treat them differently in sync and async generators)",
+    "StopIteration/StopAsyncIteration/GeneratorExit are not injected into generator-based tools (PEP 479/525 treat them differently in sync and async generators); callables of the coroutine-based aggregations DO raise StopAsyncIteration (StopIteration on the reference side)",
     "exceptions compared by identity with the planned object; __cause__/__context__ are not the object",
     "list sources cannot fail and take no fault",
 ]
@@ -51,6 +51,10 @@ def cases(draw, name, tier):
         case["exc"] = draw(st.lists(st.sampled_from(EXC_NAMES), min_size=2, max_size=2, unique=True))
     else:
         case["exc"] = list(EXC_NAMES)
+    if name in AGG_TOOLS and case["fns"]:
+        # aggregations are coroutines: a user callable raising the iteration protocol's own exception
+        # must come through like any other error (generator-based tools cannot: PEP 479/525)
+        case["exc"] = case["exc"] + ["Stop"]
     case["close"] = False
     return case
 
@@ -128,7 +132,10 @@ def check(case):
     for pos, (res, at) in enumerate(uses, start=1):
         if res.startswith("s") and res[1:].isdigit() and case["srcs"][int(res[1:])]["fl"] == "list":
             continue
+        is_source = res == "outer" or (res.startswith("s") and res[1:].isdigit())
         for exc in case["exc"]:
+            if exc == "Stop" and is_source:
+                continue  # for a source the protocol exception simply means "exhausted"
             check_one(with_fault(case, res, at, exc))
             n += 1
             if pos >= 2:
